@@ -85,6 +85,11 @@ pub fn recognise(kind: Kind, s: &str) -> Option<bool> {
             if s.contains('\n') || s.contains('/') || s.contains('\0') {
                 return None;
             }
+            // equally undecided: names no directory can have or that consist of nothing visible — ".", "..", control
+            // characters, whitespace only (a hardened LayerName may refuse them)
+            if s == "." || s == ".." || s.chars().any(|c| c.is_control()) || s.chars().all(|c| c.is_whitespace()) {
+                return None;
+            }
             Some(true)
         }
         Kind::ProcessType => Some(!s.is_empty() && s.chars().all(|c| is_ascii_alnum(c) || c == '.' || c == '_' || c == '-')),
@@ -98,6 +103,10 @@ pub fn recognise(kind: Kind, s: &str) -> Option<bool> {
         Kind::ExecDKey => Some(!s.is_empty() && s.chars().all(|c| is_ascii_alnum(c) || c == '_' || c == '-')),
         Kind::Version => {
             let parts: Vec<&str> = s.split('.').collect();
+            // "non-negative integers": whether a component beyond u64::MAX is representable is not decided
+            if parts.len() == 3 && parts.iter().all(|p| !p.is_empty() && p.chars().all(|c| c.is_ascii_digit()) && (*p == "0" || !p.starts_with('0'))) && parts.iter().any(|p| !dec_fits_u64(p)) {
+                return None;
+            }
             Some(
                 parts.len() == 3
                     && parts.iter().all(|p| {
@@ -110,6 +119,9 @@ pub fn recognise(kind: Kind, s: &str) -> Option<bool> {
         }
         Kind::Api => {
             let parts: Vec<&str> = s.split('.').collect();
+            if (parts.len() == 1 || parts.len() == 2) && parts.iter().all(|p| !p.is_empty() && p.chars().all(|c| c.is_ascii_digit())) && parts.iter().any(|p| !dec_fits_u64(p)) {
+                return None;
+            }
             Some(
                 (parts.len() == 1 || parts.len() == 2)
                     && parts
@@ -204,7 +216,15 @@ pub fn check_string(kind: Kind, s: &str) -> Check {
             let p = BuildpackVersion::try_from(s.to_string()).ok();
             let t = toml::from_str::<Wrap<BuildpackVersion>>(&toml_doc(s)).ok().map(|w| w.v);
             let j = serde_json::from_str::<Wrap<BuildpackVersion>>(&json!({"v": s}).to_string()).ok().map(|w| w.v);
-            let want = want.unwrap();
+            let Some(want) = want else {
+                // undecided by the grammar (a component beyond u64::MAX): the three paths must still agree, and an
+                // accepted value must still display as the string it was parsed from
+                ensure!(p.is_some() == t.is_some() && p.is_some() == j.is_some(), format!("C09:{tag}:paths-disagree"), "{tag} {s:?}: try_from={} toml={} json={}", p.is_some(), t.is_some(), j.is_some());
+                if let Some(v) = p {
+                    ensure!(v.to_string() == s, format!("C09:{tag}:display-not-inverse"), "display(parse({s:?})) = {:?}", v.to_string());
+                }
+                return Ok(());
+            };
             for (path, got) in [("try_from", p.is_some()), ("toml", t.is_some()), ("json", j.is_some())] {
                 if got != want {
                     let sig = if got && (s.contains('+')) {
@@ -228,7 +248,10 @@ pub fn check_string(kind: Kind, s: &str) -> Check {
             let p = BuildpackApi::try_from(s.to_string()).ok();
             let t = toml::from_str::<Wrap<BuildpackApi>>(&toml_doc(s)).ok().map(|w| w.v);
             let j = serde_json::from_str::<Wrap<BuildpackApi>>(&json!({"v": s}).to_string()).ok().map(|w| w.v);
-            let want = want.unwrap();
+            let Some(want) = want else {
+                ensure!(p.is_some() == t.is_some() && p.is_some() == j.is_some(), format!("C09:{tag}:paths-disagree"), "{tag} {s:?}: try_from={} toml={} json={}", p.is_some(), t.is_some(), j.is_some());
+                return Ok(());
+            };
             for (path, got) in [("try_from", p.is_some()), ("toml", t.is_some()), ("json", j.is_some())] {
                 if got != want {
                     let sig = if got && s.contains('+') {
